@@ -1,9 +1,13 @@
 #!/bin/sh
-# usage: try_mutant.sh <patch> <Cnn> [tier]   -- apply to /repo, run the check, always undo
+# usage: try_mutant.sh <patch> <Cnn> [tier]   -- apply to /repo, run the check, always undo.
+# The evidence file of the clean tree is preserved (a mutant run must never end up committed as evidence).
 P="$1"; C="$2"; T="${3:-quick}"
 cd /repo || exit 9
 git apply --check "$P" || { echo "PATCH DOES NOT APPLY"; exit 8; }
+cp /verif/evidence/$C.json /tmp/evidence_$C.keep 2>/dev/null
 git apply "$P"
 cd /verif && ./check "$C" --tier "$T"; rc=$?
-cd /repo && git checkout -- . 
+cp /verif/evidence/$C.json /tmp/evidence_$C.mutant 2>/dev/null
+cd /repo && git checkout -- .
+[ -f /tmp/evidence_$C.keep ] && mv /tmp/evidence_$C.keep /verif/evidence/$C.json
 echo "check rc=$rc"
